@@ -26,7 +26,7 @@ from checks import runnerlib as rl
 CURVES = ["BN254", "BLS12_381", "GOLDILOCKS"]
 LEVELS = ["info", "warning", "error"]
 
-VOCAB = ["template", "function", "signal", "input", "output", "var", "component", "if", "else", "for", "while", "return", "assert", "log",
+VOCAB = [str(21888242871839275222246405745257275088548364400416034343698204186575808495617 * 2), "18446744069414584321", "52435875175126190479447740508185965837690552500527637822603658699938581184513", "template", "function", "signal", "input", "output", "var", "component", "if", "else", "for", "while", "return", "assert", "log",
          "include", "pragma circom", "pragma", "circom", "custom_templates", "custom", "parallel", "public", "main", "(", ")", "[", "]", "{", "}", ";", ",", ".",
          "<==", "==>", "<--", "-->", "===", "=", "+=", "-=", "*=", "**=", "/=", "\\=", "%=", "<<=", ">>=", "&=", "|=", "^=", "++", "--",
          "+", "-", "*", "**", "/", "\\", "%", "<<", ">>", "&", "|", "^", "~", "!", "&&", "||", "==", "!=", "<", ">", "<=", ">=", "?", ":", "_",
@@ -35,6 +35,22 @@ VOCAB = ["template", "function", "signal", "input", "output", "var", "component"
          "115792089237316195423570985008687907853269984665640564039457584007913129639936",
          "99999999999999999999999999999999999999999999999999999999999999999999999999999999999999999999",
          "a", "b", "x", "in", "out", "i", "T0", "f0", "\"s\"", "\"\"", "\"é\"", "2.0.0", "2.1.4", "2.99999999999999999999999.0", "99999999999999999999.1.1", "2.0", "é", "$", "#", "@", "'", "\"", "/*", "*/", "//"]
+
+PRIMES = {"BN254": 21888242871839275222246405745257275088548364400416034343698204186575808495617,
+          "BLS12_381": 52435875175126190479447740508185965837690552500527637822603658699938581184513,
+          "GOLDILOCKS": 18446744069414584321}
+
+
+def prime_specials():
+    """operators whose right operand is 0 only after reduction modulo the prime (and neighbours)"""
+    out = []
+    for name, p in PRIMES.items():
+        for k in (p, 2 * p, p - 1, p + 1, 3 * p):
+            body = " ".join("var v%d = 7 %s %d;" % (i, op, k) for i, op in enumerate(["\\", "%", "/", "<<", ">>", "**", "*", "+", "-", "&", "|", "^", "<", "=="]))
+            out.append((name, "pragma circom 2.0.0;\nfunction f() { %s var w = ~%d; var z = -%d; var b = !%d; return v0; }\n" % (body, k, k, k)))
+            out.append((name, "pragma circom 2.0.0;\ntemplate T() { signal input a; signal output o; o <-- a \\ %d; o === a %% %d; log(a / %d, a << %d); }\n" % (k, k, k, k)))
+    return out
+
 
 SPECIAL = [
     "pragma circom 2.99999999999999999999999.0;\ntemplate T() { }\n",
@@ -51,6 +67,9 @@ SPECIAL = [
     "pragma circom 2.0.0;\nfunction f() { return (0 - 1) ** (0 - 1); }\n",
     "pragma circom 2.0.0;\ntemplate T() { signal input c; signal output o; if (c) { o <-- 1; } else { o <-- 2; } }\n",
     "pragma circom 2.0.0;\ntemplate T() { signal input a; assert((a,a)); }\n",
+    "pragma circom 2.0.0;\ntemplate T() { signal input a; signal input b; log(\"values\", (a, b + (a, b))); }\n",
+    "pragma circom 2.0.0;\ntemplate T() { signal input a; signal input b; log((a, (b, -(a, b)))); }\n",
+    "pragma circom 2.0.0;\ntemplate T() { signal input a; signal output o; signal output p; (o, p) <== (a, a + (a, a)); }\n",
     "pragma circom 2.0.0;\ntemplate T() { log(\"" + "a" * 229 + "ééé\"); }\n",
     "pragma circom 2.0.0;\ntemplate T() { log(\"" + "é" * 300 + "\"); }\n",
     "pragma circom 2.0.0;\ntemplate T() { signal input a; log(\"" + "x" * 1000 + "\", a, \"é\"); }\n",
@@ -182,6 +201,8 @@ def gen_inputs(rng, n, tier):
     out = []
     for s in SPECIAL:
         out.append(("special", s.encode("utf-8")))
+    for curve, s in prime_specials():
+        out.append(("special-" + curve, s.encode("utf-8")))
     for kind in NEST_KINDS:
         for depth in ([10, 50, MODEST_DEPTH] if tier == "quick" else [10, 25, 50, 75, MODEST_DEPTH]):
             out.append(("nest-%s-%d" % (kind, depth), nest(kind, depth).encode()))
@@ -251,7 +272,7 @@ def run(ctx):
         reqs = []
         for i, (kind, data) in enumerate(inputs):
             p = wd.write("i%d/main.circom" % i, data)
-            reqs.append(json.dumps({"inputs": [p], "libs": [], "curve": CURVES[i % 3]}))
+            reqs.append(json.dumps({"inputs": [p], "libs": [], "curve": kind.split("-", 1)[1] if kind.startswith("special-") else CURVES[i % 3]}))
         replies = []
         for a in range(0, len(reqs), 150):
             replies += vlib.run_harness_robust("analyze", reqs[a:a + 150], timeout_per_batch=240)
